@@ -1568,18 +1568,21 @@ func genCodec(t *rapid.T) CodecSpec {
 	return cs
 }
 
+var lenClasses = []string{"tiny", "tiny", "small", "small", "boundary", "boundary", "boundary", "boundary", "mid", "big", "big", "huge"}
+
 func genLen(t *rapid.T, label string, huge bool) int {
-	cl := rapid.IntRange(0, 99).Draw(t, label+"_class")
-	switch {
-	case cl < 22:
+	// SampledFrom rather than IntRange: rapid biases integer ranges towards
+	// their lower end, the classes are meant to be equally likely
+	switch cl := rapid.SampledFrom(lenClasses).Draw(t, label+"_class"); {
+	case cl == "tiny":
 		return rapid.IntRange(1, 16).Draw(t, label)
-	case cl < 45:
+	case cl == "small":
 		return rapid.IntRange(17, 4096).Draw(t, label)
-	case cl < 72:
+	case cl == "boundary":
 		return rapid.SampledFrom(boundaryLens).Draw(t, label)
-	case cl < 80:
+	case cl == "mid":
 		return rapid.IntRange(4097, 31742).Draw(t, label)
-	case cl < 93 || !huge:
+	case cl == "big" || !huge:
 		return rapid.IntRange(32770, 66000).Draw(t, label)
 	default:
 		return rapid.IntRange(66001, 200000).Draw(t, label)
